@@ -30,7 +30,8 @@ def ref_constants(cfg: kaisa.Config, alphabet: list[str], micro: list[int],
                   sched_args: list[int], depth: int,
                   strict: bool = False, save_args: tuple = (True, False),
                   load_args: tuple = (True, False),
-                  int_tables: dict[str, list[int]] | None = None) -> str:
+                  int_tables: dict[str, list[int]] | None = None,
+                  script: list | None = None) -> str:
     def ispec(v: Any) -> str:
         if isinstance(v, str):
             return f'[kind |-> "fn", v |-> 0, name |-> "{v}"]'
@@ -53,6 +54,10 @@ def ref_constants(cfg: kaisa.Config, alphabet: list[str], micro: list[int],
         f'MaxDepth == {depth}\nStrict == {tla(bool(strict))}\n'
         f'SaveArgs == {tla(set(save_args))}\nLoadArgs == {tla(set(load_args))}\n'
         + ('IntTable == ' + (tla(int_tables) if int_tables else '<<>>') + '\n')
+        + f'Steps0 == {int(getattr(cfg, "steps0", 0))}\n'
+        + 'Script == ' + ('<<' + ', '.join(
+            f'[act |-> "{a}", arg |-> {tla(b)}]' for a, b in script) + '>>'
+            if script else '<<>>') + '\n'
     )
 
 
@@ -365,6 +370,14 @@ def execute(cfg: kaisa.Config, hist: list[dict[str, Any]], seed: int,
                     out['expected_dec'] = sum(
                         int(a.inv_worker(n, f) == rank)
                         for n in a.get_layers() for f in a.get_factors(n))
+                elif act == 'rollback':
+                    import copy as _copy
+                    rr.pre.load_state_dict(_copy.deepcopy(rr.ckpt),
+                                           compute_inverses=bool(arg))
+                    a = rr.pre._assignment
+                    out['expected_dec'] = sum(
+                        int(a.inv_worker(n, f) == rank)
+                        for n in a.get_layers() for f in a.get_factors(n))
                 elif act == 'mem':
                     out['mem'] = dict(rr.pre.memory_usage())
                     out['mem_held'] = sum(
@@ -564,6 +577,14 @@ def compare(cfg: kaisa.Config, hist: list[dict[str, Any]],
             if not x['hasInv'] and len(out['lin']) != 0:
                 add('load', i, f'{len(out["lin"])} decompositions during a '
                                f'load that must not recompute anything')
+        elif act == 'rollback':
+            if x['recomputed'] and cfg.W == 1 and \
+                    len(out['lin']) < out['expected_dec']:
+                add('load', i, 'roll-back with compute_inverses: only '
+                               f'{len(out["lin"])} decompositions')
+            if not x['recomputed'] and len(out['lin']) != 0:
+                add('load', i, f'{len(out["lin"])} decompositions during a '
+                               'roll-back that must not recompute anything')
         elif len(out['lin']) != 0:
             add('refresh', i, f'decompositions during {act}')
     return {'mismatches': mism, 'stats': stats}
